@@ -372,3 +372,11 @@ def c10_import_unicode_cipher_name(rp):      # fixed acd4cf0
 
 def c05_hostbased_keys_accumulate(rp):       # fixed
     return rp.get('kind') == 'hostbased' and rp.get('class') == 'hostbased_keys_accumulate'
+
+
+def c03_leftover_sig_alg_cert(rp):           # fixed 2bc44c3
+    return 'one listener' in str(rp.get('what', '')) and 'cert' in str(rp.get('what', ''))
+
+
+def c19_reredirect_lost(rp):                 # fixed 1684feb
+    return rp.get('class') == 'reredirect-lost'
